@@ -267,6 +267,7 @@ where
                                             panic!("source must not pull");
                                         },
                                         Message::Error(error) => {
+                                            end.store(true, AtomicOrdering::Release);
                                             call!(
                                                 sink,
                                                 Message::Error(error),
@@ -274,6 +275,7 @@ where
                                             );
                                         },
                                         Message::Terminate => {
+                                            end.store(true, AtomicOrdering::Release);
                                             call!(sink, Message::Terminate, "to sink: {message:?}");
                                         },
                                     }
